@@ -811,6 +811,9 @@ class InClass:
                 sortfields = tuple(map(lambda x: x[0], sf_list))
             else:
                 sort = sf_list[0][0]
+                if sort == 'sequence-item':
+                    # sequence-item/cmp/desc: the element itself, as above
+                    sort = ''
 
         mapping = self.mapping
         isort = not sort
